@@ -942,7 +942,7 @@ def cc_bits(rng):
     return ubits(l, 4) + G.rand_bits(rng, 8 * l) + '0'
 
 
-def gen_walk_state(rng, pools):
+def gen_walk_state(rng, pools, force=None):
     """A shard state that drives every branch of the TL-B walk. -> dict with
     db, root, key, acc (the target's account cell), path (nodes that must stay: root, accounts cell, dictionary path),
     bad {node: why} (the parser raises while the node is present unpruned), gray (nodes whose verdict is the library's: spec-encoded /
@@ -1047,6 +1047,8 @@ def gen_walk_state(rng, pools):
         st['bad'][grp] = 'state ref group ' + gk
     # custom
     ck = rng.choice(['none', 'none', 'none', 'none', 'spec', 'spec', 'junk', 'junk', 'lib', 'lib', 'noref', 'nobit'])
+    if force is not None:
+        ck = force if force in ('noref', 'nobit') else rng.choice(['none', 'junk', 'lib'])
     refs = [omq, acell, grp]
     cbit = '0'
     if ck == 'spec' and pools['McStateExtra']:
@@ -1070,7 +1072,7 @@ def gen_walk_state(rng, pools):
         st['fatal'] = 'state cell ends before the custom bit'
     tag = ubits(0x9023afe2, 32)
     sid = '00'
-    rk = rng.random()
+    rk = {'tag': 0.0, 'shardident': 0.05}.get(force, rng.random() if force is None else 1.0)
     if rk < 0.04:
         i = rng.randrange(32)
         tag = tag[:i] + ('1' if tag[i] == '0' else '0') + tag[i + 1:]
@@ -1096,7 +1098,8 @@ def walk_stream(ctx, rng):
     pools = {'Account': spec_pool(ctx, rng, 'Account', ctx.n(10, 40)), 'McStateExtra': spec_pool(ctx, rng, 'McStateExtra', ctx.n(5, 20))}
     ctx.count(f"spec-pool:Account:{min(len(pools['Account']), 10)}+")
     for t in range(ctx.n(90, 700)):
-        st = gen_walk_state(rng, pools)
+        # every 6th state has exactly one of the defects that no pruning can hide (the others: at random)
+        st = gen_walk_state(rng, pools, force=['tag', 'shardident', 'noref', 'nobit'][t // 6 % 4] if t % 6 == 5 else None)
         db, sroot = st['db'], st['root']
         if not db.ok(sroot):
             ctx.corr_broken(f'harness: generated walk state not spec-valid ({db.infos[sroot].why if db.infos[sroot] else "child"})')
@@ -1110,7 +1113,7 @@ def walk_stream(ctx, rng):
         blk_hash = hdb.infos[hroot].H[0]
         ctx.count(f"walk:grp:{st['grp']}")
         ctx.count(f"walk:custom:{st['custom']}")
-        ctx.count('walk:fatal' if st['fatal'] else 'walk:sound-state')
+        ctx.count('walk:fatal:' + st['fatal'].split(' (')[0].replace(' ', '-') if st['fatal'] else 'walk:sound-state')
         parents = {}
         for i, (_, _, r) in enumerate(nodes):
             for c in r:
